@@ -38,7 +38,8 @@ SEED_CHECKS = {'C01-a': ['C01', 'C12'], 'C12-a': ['C12'], 'C13-a': ['C13'], 'C05
                'C13-i': ['C13'], 'C15-i': ['C15'], 'C16-g': ['C16'], 'C17-i': ['C19'], 'C19-b': ['C19', 'C17'],
                'C01-i': ['C01', 'C02'], 'C03-i': ['C03', 'C08'], 'C05-i': ['C05', 'C07'], 'C08-i': ['C08'], 'C10-i': ['C10', 'C02'],
                'C02-j': ['C02', 'C10'], 'C03-j': ['C03', 'C08'], 'C06-j': ['C06'], 'C07-j': ['C07', 'C06'], 'C09-j': ['C09'], 'C11-j': ['C11'], 'C12-j': ['C12'],
-               'C13-j': ['C13', 'C01'], 'C15-j': ['C15'], 'C16-j': ['C16'], 'C17-j': ['C17', 'C19'], 'C19-c': ['C19']}
+               'C13-j': ['C13', 'C01'], 'C15-j': ['C15'], 'C16-j': ['C16'], 'C17-j': ['C17', 'C19'], 'C19-c': ['C19'],
+               'C04-j': ['C04', 'C03'], 'C05-j': ['C05'], 'C08-j': ['C08'], 'C10-j': ['C10', 'C09'], 'C18-j': ['C18']}
 # kept but not expected to be detected (see its meta.json and DESIGN section 5): C18-i
 
 
